@@ -60,6 +60,12 @@ def fault_specs(progs, sem, tier, rng):
                 specs.append(psrun.make_spec(p, sem[p["name"]], {"kind": "slow", "slow": hub, "seed": rng.randrange(1 << 30), "penv": 0.9},
                                              name="%s#hub" % p["name"], faults={"%s/%s/%d" % (i["inst"], i["kind"], i["chunk"]): "errors"},
                                              restart=True))
+        # the stage a call is mapped over fails with unusable outputs whose arrays are longer
+        # than they are once the fault is gone
+        if p["name"] == "map_dyn_two_outs":
+            for n in range({"quick": 2, "thorough": 8}[tier]):
+                specs.append(psrun.make_spec(p, sem[p["name"]], {"kind": "random", "seed": rng.randrange(1 << 30), "penv": rng.choice([0.4, 0.8])},
+                                             name="%s#sc%d" % (p["name"], n), faults={"TOP.G[]/main/0": "stale-collection"}, restart=True))
         # a job that sends a heartbeat and then dies without a trace: only the heartbeat
         # time-out (the driver lets 61 minutes pass once nothing moves) can fail it
         if p["name"] in ("chain", "split2", "map_dyn2", "diamond", "subpipe", "map_dynkeys_split") and jobs:
